@@ -102,7 +102,7 @@ theorem packing_constants :
     Gen.Binlog.endian_datetimeSerializer_serialize = ["binary.BigEndian.PutUint64"] ∧
     Gen.Binlog.lits_timestampSerializer_serialize = [4, 1000, 1, 2, 10000, 3, 4, 100, 8, 100, 5, 6, 16, 8] ∧
     Gen.Binlog.endian_timestampSerializer_serialize = ["binary.BigEndian.PutUint32"] ∧
-    Gen.Binlog.lits_yearSerializer_serialize = [1900] ∧
+    Gen.Binlog.lits_yearSerializer_serialize = [0, 0, 1900] ∧
     Gen.Binlog.lits_bitSerializer_serialize = [7, 8, 8] ∧
     Gen.Binlog.endian_bitSerializer_serialize = ["binary.BigEndian.PutUint64"] ∧
     Gen.Binlog.lits_bitSerializer_metadata = [8, 8, 8] ∧
@@ -119,6 +119,17 @@ theorem packing_constants :
 theorem partial_decimal_literals : Gen.Binlog.lits__encodePartialDecimalBits =
     [0, 0, 0, 1, 0, 1, 2, 0, 8, 1, 255, 2, 3, 0, 16, 1, 8, 255, 2, 255, 3, 4, 0, 24, 1, 16, 255, 2, 8, 255, 3, 255, 4, 0] := by
   decide
+
+/-- `encodeJsonObject` writes a key entry as the offset followed by `byte(len), byte(len>>8)` (the
+repaired form, /repo 22b8e06) — what `jsonKeyEntry` transliterates — and
+`calculateInitialObjectKeysOffset` has the constants of `initialObjectKeysOffset`. -/
+theorem json_key_entry :
+    Gen.Binlog.jsonKeyEntryWrites =
+      ["appendForEncoding(keyEntriesBuffer, nextKeysOffset, largeEncoding)",
+       "append(keyEntriesBuffer, byte(len(encodedValue)), byte(len(encodedValue)>>8))"] ∧
+    Gen.Binlog.lits__calculateInitialObjectKeysOffset = [2, 2, 4, 3, 4, 4, 6, 5] ∧
+    (∀ n : Fin 8, initialObjectKeysOffset n.val false = 2 + 2 + n.val * 4 + n.val * 3 ∧
+                  initialObjectKeysOffset n.val true = 4 + 4 + n.val * 6 + n.val * 5) := by decide
 
 /-- `serializeRowToBinlogBytes`: one server bitmap, a NULL flag for a missing/NULL column without
 any bytes, otherwise deserialize → serialize → append -/
